@@ -402,6 +402,7 @@ def run_verus_unit(am, sdir, o):
             r["failed_checks"] = [{"msg": e} for e in errs[:5]]
     else:
         r["status"] = "tool"
+        r["text"] = "verus could not process the unit (unsupported construct / compile error, NOT a violation): " + " | ".join(errs[:4]) if errs else r["text"][:600]
     return r
 
 
